@@ -19,6 +19,8 @@ func init() {
 }
 
 func runC08(c *Ctx) {
+	c.Rule("R8", "a restarted node accepts its own snapshot: no refusal constructed in Restore is feasible when state >= snap-1 (finite order model)", 1)
+	restoreAcceptsOwnSnapshot(c, "R8")
 	c.Rule("R1", "database-bound handles are released on all paths or escape to an owner", 8)
 	c.Rule("R2", "owner Close releases every releasable field; column families before the database", 2)
 	c.Rule("R3", "node shutdown releases every component, database last", 6)
@@ -151,6 +153,29 @@ func ownerClose(c *Ctx, rule string) {
 func nodeShutdown(c *Ctx, rule string) {
 	p := c.P
 	cl := p.MustMethod(pkgConsensus, "RaftNode", "Close")
+	// Close marks the node closed first, so a second call does nothing: the only errors that may cut the
+	// shutdown short are those of the release steps themselves. A return of any other error (a step that is
+	// not a release, such as handing leadership over) leaves every component open for good.
+	{
+		var why []string
+		for _, rc := range p.RegionOf(cl, 2).ReturnCases(cl.Signature.Results().Len() - 1) {
+			for _, alt := range rc.T.Alts() {
+				if alt.Op == "const" {
+					continue
+				}
+				fromRelease := alt.Has(func(x *Term) bool {
+					if x.Op == "invoke" && (x.Name == "Close" || x.Name == "Shutdown") {
+						return true
+					}
+					return x.Op == "call" && x.Fn != nil && (x.Fn.Name() == "Close" || x.Fn.Name() == "Shutdown")
+				})
+				if !fromRelease {
+					why = append(why, alt.String())
+				}
+			}
+		}
+		c.Check(len(why) == 0, rule, funcName(cl)+":only-release-errors", cl.Pos(), "Close returns early only with the error of a release step", "Close can return early with "+strings.Join(why, ", ")+", the error of a step that releases nothing: the node is already marked closed, so a retry does nothing and raft, the transport, the log store, the balloon and the database stay open (the directories stay locked)")
+	}
 	type comp struct{ field, method string }
 	comps := []comp{{"raft", "Shutdown"}, {"transport", "Close"}, {"raftLog", "Close"}, {"balloon", "Close"}, {"db", "Close"}}
 	rg := p.RegionOf(cl, 2) // Close and the per-component shutdown helpers it may delegate to
